@@ -173,7 +173,7 @@ Proof.
     cbn zeta in H. simpl in H.
     assert (Hp : forall c, sst (<[q:=with_parent o (Some root)]> (srv s)) c = sst (srv s) c).
     { intros c. rewrite sst_insert. destruct (decide (c = q)); subst; [|done]. unfold sst. by rewrite E3. }
-    destruct (bool_decide (fn (length (pgs_of (idx s) q)) = q_state o)) eqn:E1.
+    destruct (bool_decide (fn (length (pgs_of (idx s) q)) = q_state view)) eqn:E1.
     + apply sync_hier_spec in H as (F&S&_). split.
       * eapply frame_trans; [apply frame_set_srv|]. eapply frame_trans; [apply frame_set_idx|done].
       * apply q_effect_same. intros c. rewrite S. simpl. apply Hp.
@@ -342,29 +342,47 @@ Qed.
 Lemma closeish_closed n : closeish n = SClosed -> n = 0%nat.
 Proof. by destruct n. Qed.
 
-(* ---------- T3: Closed is entered only with an empty PodGroup index ---------- *)
-Theorem closed_only_when_empty s e q a :
-  sst (srv s) q = Some a -> a <> SClosed -> sst (srv (step s e).1) q = Some SClosed ->
-  pgs_of (idx s) q = [] \/ (sst (lst s) q = Some SClosed /\ lst s !! q <> srv s !! q).
+(* ---------- T3: Closed is entered only with an empty PodGroup index.  Since the
+   repair of syncQueue (compare with the state the update function was chosen for)
+   this holds WITHOUT any freshness hypothesis on the lister. ---------- *)
+Lemma sync_queue_noop s q view fn s' ok :
+  sync_queue s q view fn = (s', ok) -> fn (length (pgs_of (idx s) q)) = q_state view ->
+  same_states s s'.
 Proof.
-  intros Ha Hne Hb.
-  destruct (only_by_request s e q a SClosed) as (r&v&P&<-&T); try done.
-  apply proc_of_inv in P as (i&->&_&Hv).
-  assert (Hl : sst (lst s) (r_q r) = Some (q_state v)) by (unfold sst; by rewrite Hv).
-  assert (Hstale : q_state v = SClosed ->
-          sst (lst s) (r_q r) = Some SClosed /\ lst s !! r_q r <> srv s !! r_q r).
-  { intros Hx. split; [congruence|]. intros Heq. unfold sst in Ha. rewrite <- Heq, Hv in Ha. simpl in Ha. congruence. }
-  destruct (r_act r), (q_state v); simpl in T; try done;
-  try (right; by apply Hstale);
-  left; symmetry in T; apply closeish_closed in T; by apply nil_length_inv.
+  unfold sync_queue. intros H Hfn.
+  destruct (bool_decide (q = root) || bool_decide (is_Some (q_parent view))) eqn:E0.
+  - cbn zeta in H. simpl in H. rewrite bool_decide_true in H by done.
+    apply sync_hier_spec in H as (_&S&_). intros c. rewrite S. done.
+  - destruct (srv s !! q) as [o|] eqn:E3; simplify_eq; [|by intros c].
+    cbn zeta in H. simpl in H. rewrite bool_decide_true in H by done.
+    apply sync_hier_spec in H as (_&S&_). intros c. rewrite S. simpl.
+    rewrite sst_insert. destruct (decide (c = q)); subst; [|done]. unfold sst. by rewrite E3.
 Qed.
 
-Corollary closed_only_when_empty_fresh s e q a :
-  lst s !! q = srv s !! q ->
+Lemma proc_closed_noop s i r v :
+  nth_error (wq s) i = Some r -> lst s !! r_q r = Some v -> q_state v = SClosed -> r_act r <> AOpen ->
+  same_states s (proc s i).1.
+Proof.
+  intros Hn Hv Hx Ha. unfold proc. rewrite Hn, Hv.
+  destruct (exec _ _ _ _) as [s1 ok] eqn:E.
+  assert (S : same_states s s1).
+  { unfold exec in E. rewrite Hx in E.
+    destruct (r_act r); try done; eapply sync_queue_noop in E; try done. }
+  destruct ok; [done|]. destruct (_ || _); done.
+Qed.
+
+Theorem closed_only_when_empty s e q a :
   sst (srv s) q = Some a -> a <> SClosed -> sst (srv (step s e).1) q = Some SClosed ->
   pgs_of (idx s) q = [].
 Proof.
-  intros F Ha Hne Hb. destruct (closed_only_when_empty s e q a) as [?|[_ ?]]; done.
+  intros Ha Hne Hb.
+  destruct (only_by_request s e q a SClosed) as (r&v&P&<-&T); try done.
+  apply proc_of_inv in P as (i&->&Hn&Hv).
+  destruct (decide (q_state v = SClosed)) as [Hx|Hx].
+  { destruct (decide (r_act r = AOpen)) as [Ho|Ho]; [rewrite Ho in T; done|].
+    exfalso. simpl in Hb. rewrite (proc_closed_noop s i r v) in Hb by done. congruence. }
+  destruct (r_act r), (q_state v); simpl in T; try done;
+  symmetry in T; apply closeish_closed in T; by apply nil_length_inv.
 Qed.
 
 (* ---------- T1': with an up-to-date lister a Sync request only completes
@@ -432,7 +450,7 @@ Proof.
   - repeat case_match; simpl; by left.
   - by left.
   - destruct (srv s !! q) as [o|] eqn:E, (lst s !! q) as [o0|] eqn:E0; simpl.
-    + destruct (bool_decide _); simpl; rewrite sst_insert; destruct (decide (root = q)); subst; try (by left);
+    + destruct (_ && _); simpl; rewrite sst_insert; destruct (decide (root = q)); subst; try (by left);
       intros; right; unfold sst; rewrite E; done.
     + rewrite sst_insert; destruct (decide (root = q)); subst; try (by left).
       intros; right; unfold sst; rewrite E; done.
@@ -513,7 +531,7 @@ Proof.
   - destruct (srv s !! q) as [o|] eqn:E3; simplify_eq.
     cbn zeta in H. simpl in H.
     assert (q_state o = q_state view) as Ho. { unfold sst in Hf. rewrite E3 in Hf. simpl in Hf. congruence. }
-    destruct (bool_decide (fn (length (pgs_of (idx s) q)) = q_state o)) eqn:E1.
+    destruct (bool_decide (fn (length (pgs_of (idx s) q)) = q_state view)) eqn:E1.
     + apply bool_decide_eq_true in E1. apply sync_hier_spec in H as (_&S&_). rewrite S. simpl.
       rewrite sst_insert. destruct (decide (q = q)); [|done]. simpl. congruence.
     + destruct (apply_state _ _ _) as [[m o']|] eqn:E2; simplify_eq.
@@ -714,10 +732,7 @@ Proof.
   rewrite bool_decide_false by done. simpl.
   destruct (decide (b = SClosed)) as [->|]; [|by rewrite bool_decide_false by congruence].
   rewrite bool_decide_true by done. simpl.
-  destruct (closed_only_when_empty s e q a) as [->|[Hl Hf]]; try done.
-  rewrite (bool_decide_true (sst (lst s) q = Some SClosed)) by done.
-  unfold fresh. rewrite (bool_decide_false (lst s !! q = srv s !! q)) by done.
-  by rewrite orb_true_r.
+  rewrite bool_decide_true; [done|]. by apply (closed_only_when_empty s e q a).
 Qed.
 
 Lemma law_root_never_closed_holds s e : law_root_never_closed s e (step s e).1 = true.
@@ -763,21 +778,129 @@ Definition ex_state : st :=
        (list_to_map [(1%positive, (2%positive, 1))]) [(2%positive, 1%positive)] [] 3.
 
 (* close q2 (one PodGroup): Closing, child q3 marked and closed, q4 (closed by hand)
-   untouched; delete the PodGroup: Closed; re-open: q3 re-opened, q4 stays closed *)
-Definition ex_history : list ev :=
-  [ECmd 2 AClose; EProc 0; ELSync 2; ELSync 3; EProc 0; ELSync 3; EPgDel 1; EProc 0; ELSync 2;
-   ECmd 2 AOpen; EProc 0; ELSync 2; EProc 0; ELSync 3].
+   untouched; delete the PodGroup: Closed; re-open: q3 re-opened, q4 stays closed.
+   After every processed request the informer delivers all queues. *)
+Definition sync_all : list ev := [ELSync 1; ELSync 2; ELSync 3; ELSync 4].
+Definition drain1 : list ev := EProc 0 :: sync_all.
+Definition ex_phase1 : list ev := [ECmd 2 AClose] ++ drain1 ++ drain1 ++ drain1 ++ drain1.
+Definition ex_phase2 : list ev := ex_phase1 ++ [EPgDel 1] ++ drain1 ++ drain1 ++ drain1.
+Definition ex_history : list ev := ex_phase2 ++ [ECmd 2 AOpen] ++ drain1 ++ drain1 ++ drain1 ++ drain1.
 
 Example ex_nonvacuous :
   root_okP ex_state /\
-  sst (srv (run ex_state (firstn 2 ex_history))) 2 = Some SClosing /\
-  scbp (srv (run ex_state (firstn 2 ex_history))) 3 = Some true /\
-  sst (srv (run ex_state (firstn 6 ex_history))) 3 = Some SClosed /\
-  sst (srv (run ex_state (firstn 9 ex_history))) 2 = Some SClosed /\
+  (let s := run ex_state ex_phase1 in
+   sst (srv s) 2 = Some SClosing /\ sst (srv s) 3 = Some SClosed /\ scbp (srv s) 3 = Some true /\
+   scbp (srv s) 4 = None /\ wq s = []) /\
+  sst (srv (run ex_state ex_phase2)) 2 = Some SClosed /\
   let s := run ex_state ex_history in
   sst (srv s) 2 = Some SOpen /\ sst (srv s) 3 = Some SOpen /\ sst (srv s) 4 = Some SClosed /\
   scbp (srv s) 3 = Some false /\ wq s = [].
 Proof. split; [split; intros x Hx; vm_compute in Hx; by simplify_eq|]. vm_compute. repeat split. Qed.
+
+(* ---------- the lag races: what a lagging lister still breaks, and what was repaired ---------- *)
+Definition q2 : positive := 2%positive.
+Definition q3 : positive := 3%positive.
+
+(* race A (known finding C13-stale-lister-sync-overwrites-open): q2 Closing with one
+   PodGroup; Open processed; lister not delivered; PodGroup deleted; Sync processed *)
+Definition raceA_init : st :=
+  let m : qmap := list_to_map [(1%positive, mkQ None SOpen None); (q2, mkQ (Some 1%positive) SClosing None)] in
+  mkSt m m (list_to_map [(1%positive, (q2, 1))]) [(q2, 1%positive)] [] 3.
+Definition raceA_state : st := run raceA_init [ECmd q2 AOpen; EProc 0; EPgDel 1].
+
+(* the full-strength form of [sync_moves] (no freshness hypothesis) is FALSE: the Sync
+   moves the server's state Open -> Closed *)
+Theorem sync_moves_full_refuted :
+  ~ (forall s e q a b,
+       sst (srv s) q = Some a -> sst (srv (step s e).1) q = Some b -> a <> b ->
+       exists r v, proc_of s e = Some (r, v) /\ r_q r = q /\
+         (r_act r = AOpen \/ r_act r = AClose \/ (a = SEmpty /\ b = SOpen) \/ (a = SClosing /\ b = SClosed))).
+Proof.
+  intros H.
+  destruct (H raceA_state (EProc 0) q2 SOpen SClosed) as (r&v&P&_&D);
+    [vm_compute; reflexivity|vm_compute; reflexivity|discriminate|].
+  vm_compute in P. simplify_eq. simpl in D. naive_solver.
+Qed.
+
+(* race C: parent q2 closed and re-opened before the lister shows q3's marker *)
+Definition raceC_init : st :=
+  let m : qmap := list_to_map [(1%positive, mkQ None SOpen None); (q2, mkQ (Some 1%positive) SOpen None);
+                               (q3, mkQ (Some q2) SOpen None)] in
+  mkSt m m ∅ [] [] 3.
+Definition raceC_history : list ev := [ECmd q2 AClose; EProc 0; ELSync q2; ECmd q2 AOpen; EProc 0].
+Definition raceC_state : st := run raceC_init raceC_history.
+
+(* the full-strength, step-level form of [reopen_exact] ("the re-open enqueues an Open for
+   every child the SERVER shows marked") is FALSE with a lagging lister *)
+Theorem reopen_server_marked_children_refuted :
+  ~ (forall s i r v,
+       nth_error (wq s) i = Some r -> lst s !! r_q r = Some v -> r_act r = AOpen ->
+       is_closedish (q_state v) = true -> (proc s i).2 = OOk ->
+       forall c co, srv s !! c = Some co -> q_parent co = Some (r_q r) -> cbp_of (q_ann co) = Some true ->
+       In (mkReq c AOpen EvNone 0) (wq (proc s i).1)).
+Proof.
+  intros H.
+  assert (X := H raceC_state 0%nat (mkReq q2 AOpen EvCmd 0) (mkQ (Some 1%positive) SClosed None)).
+  specialize (X ltac:(vm_compute; reflexivity) ltac:(vm_compute; reflexivity) eq_refl eq_refl
+                ltac:(vm_compute; reflexivity) q3 (mkQ (Some q2) SClosed (Some (false, Some true)))
+                ltac:(vm_compute; reflexivity) eq_refl eq_refl).
+  vm_compute in X. done.
+Qed.
+
+(* ... but since the repair b628b4b (updateQueue re-syncs on a marker change) the child is
+   re-opened as soon as the lister shows its marker: the delivery enqueues a Sync, and
+   that Sync enqueues the Open *)
+Lemma sync_hier_reopens s q view p po :
+  q <> root -> q_parent view = Some p -> lst s !! p = Some po -> q_state po = SOpen ->
+  is_closedish (q_state view) = true -> cbp_true (q_ann view) = true ->
+  sync_hier s q view = (push s (mkReq q AOpen EvNone 0), true).
+Proof.
+  intros Hr Hp Hl Ho Hc Hm. unfold sync_hier. rewrite bool_decide_false by done.
+  rewrite Hp, Hl, Ho, Hc, Hm. done.
+Qed.
+
+Lemma sync_queue_reopens s q view fn p po :
+  q <> root -> q_parent view = Some p -> lst s !! p = Some po -> q_state po = SOpen ->
+  srv s !! q = Some view -> cbp_true (q_ann view) = true -> is_closedish (q_state view) = true ->
+  (forall n, is_closedish (fn n) = true) ->
+  exists s', sync_queue s q view fn = (s', true) /\ In (mkReq q AOpen EvNone 0) (wq s').
+Proof.
+  intros Hr Hp Hl Ho Hs Hm Hc Hfn. unfold sync_queue.
+  rewrite (bool_decide_true (is_Some (q_parent view))) by (rewrite Hp; eauto). rewrite orb_true_r.
+  cbn zeta. destruct (bool_decide _) eqn:E.
+  - rewrite (sync_hier_reopens _ q view p po) by done.
+    eexists. split; [reflexivity|]. simpl. apply in_or_app. right. by left.
+  - unfold apply_state. simpl. rewrite Hs.
+    rewrite (sync_hier_reopens _ q _ p po) by (try done; simpl; apply Hfn).
+    eexists. split; [reflexivity|]. simpl. apply in_or_app. right. by left.
+Qed.
+
+Theorem marked_child_heals s c co lo p po :
+  srv s !! c = Some co -> lst s !! c = Some lo ->
+  cbp_of (q_ann co) = Some true -> cbp_of (q_ann lo) <> Some true ->
+  is_closedish (q_state co) = true -> q_parent co = Some p -> c <> root -> p <> c ->
+  lst s !! p = Some po -> q_state po = SOpen ->
+  let s1 := (step s (ELSync c)).1 in
+  wq s1 = wq s ++ [sync_req c] /\
+  (proc s1 (length (wq s))).2 = OOk /\
+  In (mkReq c AOpen EvNone 0) (wq (proc s1 (length (wq s))).1).
+Proof.
+  intros Hs Hl Hm Hlm Hc Hp Hroot Hpc Hpl Hpo. simpl. rewrite Hs, Hl.
+  assert (E : bool_decide (q_parent lo = q_parent co) && bool_decide (cbp_of (q_ann lo) = cbp_of (q_ann co)) = false).
+  { apply andb_false_iff. right. apply bool_decide_eq_false. congruence. }
+  rewrite E. simpl. split; [done|].
+  unfold proc. simpl. rewrite nth_error_app2 by lia. rewrite Nat.sub_diag. simpl.
+  rewrite lookup_insert.
+  set (s0 := set_wq _ _).
+  assert (Hm' : cbp_true (q_ann co) = true) by (unfold cbp_true; by apply bool_decide_eq_true).
+  assert (Hl0 : lst s0 !! p = Some po) by (simpl; rewrite lookup_insert_ne by done; done).
+  assert (Hs0 : srv s0 !! c = Some co) by done.
+  assert (X : exists s', exec s0 c co ASync = (s', true) /\ In (mkReq c AOpen EvNone 0) (wq s')).
+  { unfold exec. destruct (q_state co) eqn:Ex; try done.
+    - eapply sync_queue_reopens; eauto. by rewrite Ex.
+    - eapply sync_queue_reopens; eauto; [by rewrite Ex|]. by intros []. }
+  destruct X as (s'&->&Hin). done.
+Qed.
 
 (* ---------- history forms: every step of every history from every initial state ---------- *)
 Lemma only_by_request_hist s0 h e q a b : let s := run s0 h in
@@ -795,14 +918,8 @@ Proof. exact (sync_moves (run s0 h) e q a b). Qed.
 
 Lemma closed_only_when_empty_hist s0 h e q a : let s := run s0 h in
   sst (srv s) q = Some a -> a <> SClosed -> sst (srv (step s e).1) q = Some SClosed ->
-  pgs_of (idx s) q = [] \/ (sst (lst s) q = Some SClosed /\ lst s !! q <> srv s !! q).
-Proof. exact (closed_only_when_empty (run s0 h) e q a). Qed.
-
-Lemma closed_only_when_empty_fresh_hist s0 h e q a : let s := run s0 h in
-  lst s !! q = srv s !! q ->
-  sst (srv s) q = Some a -> a <> SClosed -> sst (srv (step s e).1) q = Some SClosed ->
   pgs_of (idx s) q = [].
-Proof. exact (closed_only_when_empty_fresh (run s0 h) e q a). Qed.
+Proof. exact (closed_only_when_empty (run s0 h) e q a). Qed.
 
 Lemma close_result_hist s0 h i r v : let s := run s0 h in
   nth_error (wq s) i = Some r -> lst s !! r_q r = Some v -> r_act r = AClose ->
